@@ -85,16 +85,17 @@ structure PushSame (c c' : Conn) : Prop where
   smSupport : c'.sm.support = c.sm.support
   smCanResume : c'.sm.canResume = c.sm.canResume
   smDisable : c'.smDisable = c.smDisable
+  soc : c'.sendOnConnect = c.sendOnConnect
 
 theorem PushSame.refl (c : Conn) : PushSame c c :=
-  ⟨rfl, rfl, rfl, rfl, rfl, rfl, rfl, rfl, rfl, rfl, rfl, rfl, rfl, rfl, rfl, rfl, rfl, rfl, rfl, rfl⟩
+  ⟨rfl, rfl, rfl, rfl, rfl, rfl, rfl, rfl, rfl, rfl, rfl, rfl, rfl, rfl, rfl, rfl, rfl, rfl, rfl, rfl, rfl⟩
 theorem PushSame.trans {c c' c'' : Conn} (h1 : PushSame c c') (h2 : PushSame c' c'') : PushSame c c'' :=
   ⟨h2.state.trans h1.state, h2.smq.trans h1.smq, h2.nr.trans h1.nr, h2.en.trans h1.en, h2.evs.trans h1.evs,
    h2.tx.trans h1.tx, h2.g.trans h1.g, h2.neg.trans h1.neg, h2.handlers.trans h1.handlers,
    h2.idHandlers.trans h1.idHandlers, h2.timed.trans h1.timed, h2.hasSm.trans h1.hasSm, h2.pst.trans h1.pst,
    h2.resetParser.trans h1.resetParser, h2.smId.trans h1.smId, h2.smPrevid.trans h1.smPrevid,
    h2.smBoundJid.trans h1.smBoundJid, h2.smSupport.trans h1.smSupport, h2.smCanResume.trans h1.smCanResume,
-   h2.smDisable.trans h1.smDisable⟩
+   h2.smDisable.trans h1.smDisable, h2.soc.trans h1.soc⟩
 
 /-- `pushRawWith` after the owner class has been decided -/
 def pushCore (c : Conn) (it : Item) (owner : Owner) (snap : Snap) : Conn :=
@@ -115,8 +116,8 @@ theorem pushCore_same (c : Conn) (it : Item) (o : Owner) (sn : Snap) : PushSame 
   unfold pushCore
   dsimp only
   split
-  · split <;> exact ⟨rfl, rfl, rfl, rfl, rfl, rfl, rfl, rfl, rfl, rfl, rfl, rfl, rfl, rfl, rfl, rfl, rfl, rfl, rfl, rfl⟩
-  · exact ⟨rfl, rfl, rfl, rfl, rfl, rfl, rfl, rfl, rfl, rfl, rfl, rfl, rfl, rfl, rfl, rfl, rfl, rfl, rfl, rfl⟩
+  · split <;> exact ⟨rfl, rfl, rfl, rfl, rfl, rfl, rfl, rfl, rfl, rfl, rfl, rfl, rfl, rfl, rfl, rfl, rfl, rfl, rfl, rfl, rfl⟩
+  · exact ⟨rfl, rfl, rfl, rfl, rfl, rfl, rfl, rfl, rfl, rfl, rfl, rfl, rfl, rfl, rfl, rfl, rfl, rfl, rfl, rfl, rfl⟩
 
 theorem pushRawWith_same (c : Conn) (it : Item) (o : Owner) (sn : Snap) : PushSame c (pushRawWith c it o sn) := by
   rw [pushRawWith_eq]; exact pushCore_same _ _ _ _
@@ -284,11 +285,44 @@ theorem cleanup_head {q : List (UInt32 × QElem)} {n : UInt32} (hc : ContigQ q n
   have hev : e.1.toNat = v := by omega
   rw [← hev, UInt32.ofNat_toNat]
 
+/-- what the application's connection handler sends from within the CONNECT notification -/
+def ocItem : Item := .user (b "presence") (some (b "oc"))
+
+/-- CONNECT is delivered; the application's handler may send at once -/
+theorem negotiationSuccess_same (c : Conn) :
+    PushSame (notify { c with negotiated := true } .connect) (negotiationSuccess c) := by
+  unfold negotiationSuccess
+  dsimp only
+  split
+  · unfold sendStanza pushRaw
+    split
+    · exact pushRawWith_same _ _ _ _
+    · exact PushSame.refl _
+  · exact PushSame.refl _
+
 theorem negotiationSuccess_fields (c : Conn) :
-    (negotiationSuccess c).queue = c.queue ∧ (negotiationSuccess c).sm = c.sm ∧
+    (c.state = .connected → payload (negotiationSuccess c).queue =
+      payload c.queue ++ (if c.sendOnConnect = true then [ocItem] else [])) ∧
+    (negotiationSuccess c).sm.queue = c.sm.queue ∧ (negotiationSuccess c).sm.sentNr = c.sm.sentNr ∧
+    (negotiationSuccess c).sm.enabled = c.sm.enabled ∧
     (negotiationSuccess c).evs = c.evs ++ [(c.g, Ev.connect)] ∧ (negotiationSuccess c).state = c.state ∧
-    (negotiationSuccess c).tx = c.tx :=
-  ⟨rfl, rfl, rfl, rfl, rfl⟩
+    (negotiationSuccess c).tx = c.tx := by
+  have hs := negotiationSuccess_same c
+  refine ⟨fun hc => ?_, hs.smq, hs.nr, hs.en, hs.evs, hs.state, hs.tx⟩
+  unfold negotiationSuccess
+  dsimp only
+  have e1 : (notify { c with negotiated := true } .connect).sendOnConnect = c.sendOnConnect := rfl
+  rw [e1]
+  by_cases hso : c.sendOnConnect = true
+  · rw [if_pos hso, if_pos hso]
+    unfold sendStanza pushRaw
+    have : isConnectedFor (notify { c with negotiated := true } .connect) Owner.user = true := by
+      unfold isConnectedFor notify
+      simp [hc]
+    rw [if_pos this, pushRawWith_payload, if_neg (by decide)]
+    rfl
+  · rw [if_neg hso, if_neg hso, List.append_nil]
+    rfl
 
 /-- the accepting branch of `<resumed/>` -/
 def resumedC1 (c : Conn) (v : Nat) : Conn :=
@@ -314,10 +348,12 @@ theorem handleSm_resumed (c : Conn) (st : XTree) (ours : Bytes) (v : Nat)
 
 /-- `<resumed h='v'/>` answering our `<resume/>` with an `h` the server can have counted: exactly the
     retained elements numbered `v` and above are put back into the send queue, once, in their
-    original order, behind whatever the library itself had queued; the counter continues at `v`;
-    only then is the application told that the connection is up.
+    original order, behind whatever the library itself had queued and BEFORE anything the application
+    sends from its CONNECT handler; the counter continues at `v`; only then is the application told
+    that the connection is up.
     (Compared with the first formulation: `hq` added — the retained elements are no ack requests;
-    true in every reachable state, see `retained_are_user_items`.) -/
+    true in every reachable state, see `retained_are_user_items`; and what the connection handler
+    sends comes last.) -/
 theorem resumed_retransmits_exactly (c : Conn) (st : XTree) (ours : Bytes) (v : Nat)
     (hname : st.name? = some (b "resumed")) (hp : c.sm.previd = some ours)
     (hpv : st.attr (b "previd") = some ours) (hh : getH st = some v)
@@ -325,17 +361,21 @@ theorem resumed_retransmits_exactly (c : Conn) (st : XTree) (ours : Bytes) (v : 
     (hhonest : c.sm.sentNr.toNat - c.sm.queue.length ≤ v ∧ v ≤ c.sm.sentNr.toNat)
     (hq : ∀ e ∈ c.sm.queue, e.2.item ≠ .req) :
     let c' := handleSm c st
-    payload c'.queue = payload c.queue ++ ((c.sm.queue.filter (fun e => v ≤ e.1.toNat)).map (·.2.item)) ∧
+    payload c'.queue = payload c.queue ++ ((c.sm.queue.filter (fun e => v ≤ e.1.toNat)).map (·.2.item)) ++
+      (if c.sendOnConnect then [.user (b "presence") (some (b "oc"))] else []) ∧
     c'.sm.queue = [] ∧ c'.sm.sentNr = UInt32.ofNat v ∧ c'.sm.enabled = true ∧
     (∃ g, c'.evs = c.evs ++ [(g, Ev.connect)]) := by
   intro c'
   have e : c' = negotiationSuccess (smQueueResend (resumedC1 c v)) := handleSm_resumed c st ours v hname hp hpv hh
   have hcq := (contig_iff _).1 hc
   have hfil := cleanup_eq_filter hcq hw v
-  obtain ⟨f1, f2, f3, _, _⟩ := negotiationSuccess_fields (smQueueResend (resumedC1 c v))
-  rw [e]
-  rw [smQueueResend_eq] at f1 f2 f3 ⊢
   have hsame := resendLoop_same (resumedC1 c v).sm.queue { (resumedC1 c v) with sm := { (resumedC1 c v).sm with queue := [] } }
+  have hR : smQueueResend (resumedC1 c v) =
+      resendLoop (resumedC1 c v).sm.queue { (resumedC1 c v) with sm := { (resumedC1 c v).sm with queue := [] } } :=
+    smQueueResend_eq _
+  obtain ⟨f1, f2, f3, f4, f5, _, _⟩ := negotiationSuccess_fields (smQueueResend (resumedC1 c v))
+  have hst : (smQueueResend (resumedC1 c v)).state = .connected := by rw [hR, hsame.state]; exact hstate
+  have hso : (smQueueResend (resumedC1 c v)).sendOnConnect = c.sendOnConnect := by rw [hR, hsame.soc]; rfl
   have hq' : ∀ e ∈ (resumedC1 c v).sm.queue, e.2.item ≠ .req := by
     intro x hx
     have : x ∈ smQueueCleanup c.sm.queue v := hx
@@ -348,14 +388,16 @@ theorem resumed_retransmits_exactly (c : Conn) (st : XTree) (ours : Bytes) (v : 
     cases hcl : smQueueCleanup c.sm.queue v with
     | nil => rfl
     | cons x rest => exact cleanup_head hcq hw v hhonest.1 x rest hcl
+  rw [e]
   refine ⟨?_, ?_, ?_, ?_, ?_⟩
-  · rw [f1, hpay]
-    show payload c.queue ++ (smQueueCleanup c.sm.queue v).map (·.2.item) = _
-    rw [hfil]
-  · rw [f2, hsame.smq]
-  · rw [f2, hsame.nr]; exact hsent
-  · rw [f2, hsame.en]; rfl
-  · exact ⟨_, by rw [f3, hsame.evs]; rfl⟩
+  · rw [f1 hst, hso, hR, hpay]
+    have : (resumedC1 c v).sm.queue = c.sm.queue.filter (fun e => decide (v ≤ e.1.toNat)) := hfil
+    rw [this]
+    rfl
+  · rw [f2, hR, hsame.smq]
+  · rw [f3, hR, hsame.nr]; exact hsent
+  · rw [f4, hR, hsame.en]; rfl
+  · exact ⟨_, by rw [f5, hR, hsame.evs]; rfl⟩
 
 theorem resetSmForReconnect_same (c : Conn) :
     let r := resetSmForReconnect c
@@ -425,40 +467,48 @@ theorem handleSm_enabled (c : Conn) (st : XTree)
     (hid : (st.attr (b "resume")).isSome = true → (st.attr (b "id")).isSome = true) :
     ∃ c2 : Conn, handleSm c st = negotiationSuccess (smQueueResend c2) ∧ c2.sm.queue = c.sm.queue ∧
       c2.sm.sentNr = c.sm.sentNr ∧ c2.sm.enabled = true ∧ c2.state = c.state ∧ c2.queue = c.queue ∧
-      c2.evs = c.evs := by
+      c2.evs = c.evs ∧ c2.sendOnConnect = c.sendOnConnect := by
   unfold handleSm
   rw [hname]
   dsimp only [Option.getD_some]
   rw [if_pos rfl, if_neg (by rw [hen]; simp)]
   cases hr : st.attr (b "resume") with
-  | none => exact ⟨_, rfl, rfl, rfl, hen, rfl, rfl, rfl⟩
+  | none => exact ⟨_, rfl, rfl, rfl, hen, rfl, rfl, rfl, rfl⟩
   | some r =>
     rw [hr] at hid
     cases hi : st.attr (b "id") with
     | none => rw [hi] at hid; exact absurd (hid rfl) (by simp)
-    | some i => exact ⟨_, rfl, rfl, rfl, hen, rfl, rfl, rfl⟩
+    | some i => exact ⟨_, rfl, rfl, rfl, hen, rfl, rfl, rfl, rfl⟩
 
-/-- … and is sent again, first and in order, as soon as the new session's `<enabled/>` arrives.
-    (Compared with the first formulation: `hq` added, see `resumed_retransmits_exactly`.) -/
+/-- … and is sent again, first and in order, as soon as the new session's `<enabled/>` arrives —
+    before anything the application sends from its CONNECT handler.
+    (Compared with the first formulation: `hq` added, see `resumed_retransmits_exactly`; what the
+    connection handler sends comes last.) -/
 theorem enabled_resends_all (c : Conn) (st : XTree)
     (hname : st.name? = some (b "enabled")) (hen : c.sm.enabled = true) (hstate : c.state = .connected)
     (hid : (st.attr (b "resume")).isSome = true → (st.attr (b "id")).isSome = true)
     (hq : ∀ e ∈ c.sm.queue, e.2.item ≠ .req) :
     let c' := handleSm c st
-    payload c'.queue = payload c.queue ++ c.sm.queue.map (·.2.item) ∧ c'.sm.queue = [] ∧
-    c'.sm.sentNr = c.sm.sentNr := by
+    payload c'.queue = payload c.queue ++ c.sm.queue.map (·.2.item) ++
+      (if c.sendOnConnect then [.user (b "presence") (some (b "oc"))] else []) ∧
+    c'.sm.queue = [] ∧ c'.sm.sentNr = c.sm.sentNr := by
   intro c'
-  obtain ⟨c2, e, h1, h2, _, h4, h5, _⟩ := handleSm_enabled c st hname hen hid
+  obtain ⟨c2, e, h1, h2, _, h4, h5, _, h7⟩ := handleSm_enabled c st hname hen hid
   have e' : c' = negotiationSuccess (smQueueResend c2) := e
-  obtain ⟨f1, f2, _, _, _⟩ := negotiationSuccess_fields (smQueueResend c2)
-  rw [e']
-  rw [smQueueResend_eq] at f1 f2 ⊢
   have hsame := resendLoop_same c2.sm.queue { c2 with sm := { c2.sm with queue := [] } }
+  have hR : smQueueResend c2 = resendLoop c2.sm.queue { c2 with sm := { c2.sm with queue := [] } } :=
+    smQueueResend_eq _
+  obtain ⟨f1, f2, f3, _, _, _, _⟩ := negotiationSuccess_fields (smQueueResend c2)
+  have hst : (smQueueResend c2).state = .connected := by rw [hR, hsame.state]; exact h4.trans hstate
+  have hso : (smQueueResend c2).sendOnConnect = c.sendOnConnect := by rw [hR, hsame.soc]; exact h7
   have hpay := resendLoop_payload c2.sm.queue { c2 with sm := { c2.sm with queue := [] } } (h4.trans hstate)
     (by rw [h1]; exact hq)
+  rw [e']
   refine ⟨?_, ?_, ?_⟩
-  · rw [f1, hpay, h1]; show payload c2.queue ++ _ = _; rw [h5]
-  · rw [f2, hsame.smq]
-  · rw [f2, hsame.nr]; exact h2
+  · rw [f1 hst, hso, hR, hpay, h1]
+    show payload c2.queue ++ _ ++ _ = _
+    rw [h5]; rfl
+  · rw [f2, hR, hsame.smq]
+  · rw [f3, hR, hsame.nr]; exact h2
 
 end Strophe.Lemmas.ConnC04
